@@ -1146,6 +1146,8 @@ func (r *Runner) cancelStdinReads(ctx context.Context) (done func()) {
 			// The AfterFunc was started; wait for it to complete,
 			// so that it cannot interfere with a later read.
 			<-stopc
+		} else {
+			verifDrop(tok)
 		}
 	}
 }
